@@ -200,7 +200,8 @@ def run_case(case, res):
             single = len(nodes) == 1
             configs = [(gen, None, "frac", ("default", "zero", "none")), (gen2, None, "frac", ("default",))]
             if single:
-                configs += [(gen, gw, "frac", ("default",)), (gen, None, "float", ("default",))]
+                # the float run comes first: exact removal must not depend on an earlier float run on equal knot values
+                configs = [(gen, None, "float", ("default",))] + configs + [(gen, gw, "frac", ("default",))]
                 if n <= 5:
                     configs += [(gen, [F(1)] * n, "frac", ("default",)), (gen2, gw, "float", ("default",))]
             for P, W, rep, tols in configs:
